@@ -49,6 +49,17 @@ CHECKS = {
             "handshakes of every variant at MTU 32/60/100 with reordered datagrams must complete and obey the MTU on the wire.",
             "Fragments are assumed to partition the message (the property's quantifier); overlapping or inconsistent fragments are C08 input.",
             "DESIGN.md §4 C12"),
+    "C18": ("exploration",
+            "runtime law monitoring of every codec: decode/re-encode/decode fixed-point, value equality, trailing-junk and "
+            "truncation laws, datagram partition law, on harvested real encodings, their systematic mutations and generated values",
+            "About 70 codec instances (record headers legacy/CID/unified, records, inner plaintext, every handshake message under each "
+            "key-exchange context, alerts, ACK, RRC, every extension type, three datagram unpackers). Inputs: every message, record and "
+            "extension of real handshakes of all variants, each truncated at every length and mutated per byte (+1,-1,0x80,0,0xff), junk "
+            "appended, foreign codecs' encodings, random short strings; plus generated values for fixed-layout codecs. Held = no law "
+            "broken on the accepted inputs seen (count per codec in evidence); decoders never panicked.",
+            "Value equality treats nil and empty slices as equal; the mixed-CID discard of UnpackDatagram13 is exempted from the partition law "
+            "(RFC 9147 Section 4); RecordLayer.Unmarshal is tested under its one-record contract.",
+            "DESIGN.md §4 C18"),
 }
 
 NOT_YET = "monitor not built yet in this session (see DESIGN.md for the planned design)"
